@@ -288,31 +288,10 @@ def check_property(w):
     except Exception as e:
         return True, f"the supported circuit cannot be loaded / run: {type(e).__name__}: {str(e)[:160]}"
     bad = F < 1 - (1 - F_MIN) * k or leak > LEAK_MAX * k
-    return bad, (f"process fidelity in the qubit subspace {F:.6f} (required >= {1 - (1 - F_MIN) * k:.3f}), "
+    tag = "" if not w.get("params") else ("[failing-input SEARCH beyond the property's claim: non-default per-qubit control "
+                                          f"strengths {w['params']}, a family the unchanged code tolerates] ")
+    return bad, tag + (f"process fidelity in the qubit subspace {F:.6f} (required >= {1 - (1 - F_MIN) * k:.3f}), "
                  f"leakage {leak:.2e} (allowed {LEAK_MAX * k:.3f}); {k} pulse gate(s)")
-
-
-SMALL_ANGLE = 0.1
-
-
-def in_short_pulse_class(w):
-    """recorded finding C18-3 (open while SCQubitsCompiler._rotation_compiler has no amplitude floor): a
-    superconducting-qubit circuit whose transpiled form has two or more pulse gates, one of them a rotation by a small
-    non-zero angle.  Its pulse is hundreds of times shorter than its neighbours; the cubic spline over the concatenated
-    samples rings into the neighbouring pulse or idle interval.  Not covered by any theorem (the theorems end at the
-    compiled samples); the random part of the MEASURED sweep leaves this class out and says so."""
-    if w["dev"] != "scq":
-        return False
-    try:
-        proc = make_proc("scq", w["N"], w.get("params"))
-        with warnings.catch_warnings():
-            warnings.simplefilter("ignore")
-            gs = proc.transpile(build_circuit(w["N"], w["gates"])).gates
-    except Exception:
-        return False
-    pulse = [g for g in gs if g.name not in ("GLOBALPHASE", "IDLE") and not (g.arg_value is not None and g.arg_value == 0)]
-    small = any(g.name in ("RX", "RY", "RZX") and g.arg_value is not None and 0 < abs(g.arg_value) < SMALL_ANGLE for g in pulse)
-    return small and len(pulse) >= 2
 
 
 # ------------------------------------------------------------------------------------------
@@ -406,10 +385,9 @@ class C18(PropertyCheck):
         "2*d*T an integer - both hold at the default parameters (-2500 / -3750 turns), and the measured fidelity collapses "
         "when they fail (g = [0.01, 0.012]: 0.05; g = 0.02: SQRTISWAP 0.0)",
         "hardware strengths are non-zero",
-        "measured sweep: while SCQubitsCompiler._rotation_compiler has no amplitude floor for small angles (recorded finding, "
-        "repair fixes/C18-3.patch) random superconducting-qubit circuits whose transpiled form has two or more pulse gates, one of "
-        "them a rotation by 0 < |theta| < 0.1, are left out of the random part of the sweep (the cubic spline over the "
-        "concatenated samples rings next to a pulse that is hundreds of times shorter; the recorded witness is replayed every run)",
+        "the measured sweep also runs a few devices with NON-UNIFORM per-qubit control strengths (cavity: epsmax, deltamax; "
+        "superconducting: omega_single, omega_cr, alpha - families for which the unchanged code keeps the bound) as a failing-input "
+        "search beyond the property's claim (the property speaks of the default parameters; the theorems of per-qubit parameters)",
         "superconducting compiler: default args (hann, DRAG on or off); the DRAG corrections enter only the measured part",
     ]
     rule = ("case = (device, number of qubits, hardware parameter vectors, gate list with placements and angles, DRAG flag); "
@@ -424,8 +402,12 @@ class C18(PropertyCheck):
         return ["CqedTables.lean", "ScqTables.lean"]
 
     def flags(self):
+        """variant flags of the source as read by the translator; None if the source is not recognised"""
         if self.info is None:
-            self.info = T.render()[2]
+            try:
+                self.info = T.render()[2]
+            except Exception:
+                return None
         return self.info["flips"], self.info["signed"], self.info["floor"]
 
     # ---------------------------------------------------------------------------------
@@ -567,8 +549,9 @@ class C18(PropertyCheck):
             for (n, refs, a), (mn, mr, ma, _) in zip(live_seq, mseq))
         if not okseq:
             problems.append(("cnot_compiler sequence", f["cnot"], str(live_seq)))
-        flips, signed, _ = self.flags()
-        if f["flips"] != ("1" if flips else "0") or f["signed"] != ("1" if signed else "0"):
+        fl = self.flags()
+        flips, signed = (fl[0], fl[1]) if fl else (None, None)
+        if fl and (f["flips"] != ("1" if flips else "0") or f["signed"] != ("1" if signed else "0")):
             problems.append(("variant flags compiled into the driver", f["flips"] + f["signed"], f"{flips} {signed}"))
         # label sets
         outs = ctx.driver("drv_cqed").run([f"labels dev={dev} n={n}" for dev in ("cq", "scq") for n in (1, 2, 3, 4)])
@@ -741,8 +724,7 @@ class C18(PropertyCheck):
 
     def correspondence(self, ctx, res):
         rng = ctx.rng
-        if self.info is None:
-            self.info = T.render()[2]
+        self.flags()        # tolerate a source the translator refuses: the driver then carries the last good tables
         self._tables_check(ctx, res)
         pc = [(dev, N, p) for dev in ("cq", "scq") for N in (1, 2, 3, 4) for p in (None,)]
         pc += [(dev, N, cut_params(dev, N, NONUNI[dev])) for dev in ("cq", "scq") for N in (1, 2, 3)]
@@ -788,6 +770,45 @@ class C18(PropertyCheck):
                     for a in (PI / 2, -PI / 2, 0.3, -1.0):
                         yield {"dev": "scq", "N": N, "params": None, "mode": "ASAP", "gates": [["RZX", [q1, q2], [], a]]}
 
+    # parameter families for which the UNCHANGED code keeps the bound (measured, see notes/C18.md): per-qubit control strengths.
+    # cavity: epsmax, deltamax (they only set pulse durations); NOT per-qubit g / eps / delta (the exchange gate needs a uniform
+    # pair at resonance).  superconducting: omega_single, omega_cr, alpha, g per coupling (effective ZX model).
+    TOL = {"cq": {"epsmax": [3.0, 4.0, 9.5, 12.0], "deltamax": [0.25, 0.5, 1.0, 2.0]},
+           "scq": {"omega_single": [0.0075, 0.01, 0.0125, 0.02], "omega_cr": [0.01, 0.015, 0.02], "alpha": [-0.3, -0.25, -0.35]}}
+    FIXED_NONUNI = {("cq", 2): {"epsmax": [9.5, 3.0], "deltamax": [1.0, 0.5]},
+                    ("cq", 3): {"epsmax": [4.0, 9.5, 12.0], "deltamax": [2.0, 1.0, 0.25]},
+                    ("scq", 2): {"omega_single": [0.01, 0.0125], "omega_cr": [0.01, 0.02], "alpha": [-0.3, -0.25]},
+                    ("scq", 3): {"omega_single": [0.0125, 0.01, 0.0075], "omega_cr": [0.02, 0.01, 0.015], "alpha": [-0.25, -0.3, -0.35]}}
+
+    def _rand_tolerated(self, rng, dev, N):
+        p = {k: [rng.choice(v) for _ in range(N)] for k, v in self.TOL[dev].items()}
+        if dev == "scq" and N > 1 and rng.random() < 0.5:
+            p["g"] = [rng.choice([0.09, 0.1, 0.11, 0.12]) for _ in range(2 * (N - 1))]
+        return p
+
+    def _nonuniform(self, small_only=False):
+        """SEARCH inputs beyond the property's claim: devices whose qubits have different control strengths, every native gate on
+        every qubit / ordered pair.  The theorems quantify over per-qubit parameters ("the strength of THAT qubit"); a change that
+        mixes up the parameters of two qubits is invisible at the uniform defaults."""
+        for (dev, N), p in self.FIXED_NONUNI.items():
+            if small_only and N > 2:
+                continue
+            base = {"dev": dev, "N": N, "params": p, "mode": "ASAP"}
+            for q1, q2 in itertools.permutations(range(N), 2):
+                if dev == "cq":
+                    yield dict(base, gates=[["ISWAP", [q1, q2], [], None]])
+                    yield dict(base, gates=[["SQRTISWAP", [q1, q2], [], None]])
+                elif abs(q1 - q2) == 1:
+                    yield dict(base, gates=[["CNOT", [q2], [q1], None]])
+                    yield dict(base, gates=[["RZX", [q1, q2], [], -0.8]])
+            for q in range(N):
+                for a in (1.3, -2.1, 0.01):
+                    yield dict(base, gates=[["RX", [q], [], a]])
+                    yield dict(base, gates=[[("RZ" if dev == "cq" else "RY"), [q], [], a]])
+            if N >= 2:
+                yield dict(base, mode="ALAP", gates=[["CNOT", [1], [0], None]])
+                yield dict(base, gates=[["SWAP", [0, 1], [], None]] if dev == "cq" else [["CSIGN", [0], [1], None]])
+
     def _rand_witness(self, rng):
         dev = rng.choice(["cq", "scq"])
         N = rng.randint(1, 3 if dev == "cq" else 2)
@@ -807,30 +828,44 @@ class C18(PropertyCheck):
             else:
                 n = rng.choice(one)
                 gs.append([n, [rng.randrange(N)], [], rng.uniform(-2 * PI, 2 * PI) if n in ("RX", "RY", "RZ") else None])
-        return {"dev": dev, "N": N, "params": None, "mode": rng.choice(["ASAP", "ALAP"]), "gates": gs}
+        return {"dev": dev, "N": N, "params": (self._rand_tolerated(rng, dev, N) if getattr(self, "_search_params", False)
+                                               and rng.random() < 0.6 else None),
+                "mode": rng.choice(["ASAP", "ALAP"]), "gates": gs}
 
     def oracle_search(self, ctx, budget_s):
+        """failing-input search after a broken obligation.  It does not use the translator (it must run when the source is not
+        recognised).  Stages: the property's own domain (default parameters), then devices with NON-UNIFORM per-qubit control
+        strengths from families the unchanged code tolerates - a search beyond the property's claim, labelled as such -, then
+        random circuits on both kinds of devices."""
         t0 = time.time()
-        for w in self._systematic():
+        for w in itertools.chain(self._nonuniform(small_only=True), self._systematic(), self._nonuniform()):
             f, d = check_property(w)
             if f:
                 yield w, d
             if time.time() - t0 > budget_s:
                 return
-        skip = not self.flags()[2]
-        while time.time() - t0 < budget_s:
-            w = self._rand_witness(ctx.rng)
-            if skip and in_short_pulse_class(w):
-                continue
-            f, d = check_property(w)
-            if f:
-                yield w, d
+        self._search_params = True
+        try:
+            while time.time() - t0 < budget_s:
+                w = self._rand_witness(ctx.rng)
+                f, d = check_property(w)
+                if f:
+                    yield w, d
+        finally:
+            self._search_params = False
 
     def oracle_always(self, ctx):
         """the MEASURED part: fidelity / leakage of a seeded sample of native gates and short circuits at the default
         parameters (time-budgeted)"""
         budget = 600 if ctx.thorough else 40
         t0 = time.time()
+        # a small fixed part beyond the property's claim: two-qubit devices with different per-qubit control strengths
+        nn = 0
+        for w in self._nonuniform(small_only=True):
+            f, d = check_property(w)
+            nn += 1
+            if f:
+                yield w, d
         allw = list(self._systematic())
         two = [w for w in allw if len(w["gates"][0][1]) + len(w["gates"][0][2]) == 2 and w["N"] == 2]
         rest = [w for w in allw if w not in two]
@@ -843,16 +878,14 @@ class C18(PropertyCheck):
             n += 1
             if f:
                 yield w, d
-        skip = not self.flags()[2]
         while time.time() - t0 < budget:
             w = self._rand_witness(ctx.rng)
-            if skip and in_short_pulse_class(w):
-                continue
             f, d = check_property(w)
             n += 1
             if f:
                 yield w, d
-        ctx.log(f"measured fidelity / leakage on {n} native gates and short circuits")
+        ctx.log(f"measured fidelity / leakage on {n} native gates and short circuits at the default parameters, and on {nn} native "
+                f"gates of two-qubit devices with non-uniform per-qubit control strengths (search beyond the claim)")
 
 
 CHECK = C18()
